@@ -108,6 +108,68 @@ def run_roundtrip(arg):
         shutil.rmtree(tmp, ignore_errors=True)
 
 
+def run_bundled(arg):
+    """write/read/write cycles on the bundled network files"""
+    path, fmt, kw = arg
+    from ..harness.render import reset_globals, scratch, quiet
+
+    reset_globals()
+    from naunet.network import Network
+
+    viols = []
+    tmp = Path(tempfile.mkdtemp(dir=scratch()))
+    case = {"bundled": path, "fmt": fmt, "kw": kw}
+    name = Path(path).name
+    try:
+        with quiet():
+            try:
+                net = Network(filelist=path, fileformats=fmt, **kw)
+            except Exception as e:
+                return 0, []  # the file itself does not load with this configuration: not this property
+            s0 = snapshot(net)
+            w1 = tmp / "w1.naunet"
+            try:
+                net.write(w1, "naunet")
+                n1 = Network(filelist=str(w1), fileformats="naunet", **{k: v for k, v in kw.items() if k != "grain_model"})
+            except Exception as e:
+                tag = "ice-prefix-G" if fmt == "leeds" and "unrecognizable" in str(e) else type(e).__name__
+                return 1, [(f"C18:bundled-roundtrip-raises:{name}:{tag}", f"{name}: write/read raised {e!r}", case)]
+            s1 = snapshot(n1)
+            if len(s0) != len(s1):
+                return 1, [(f"C18:bundled-count:{name}", f"{name}: {len(s0)} reactions written, {len(s1)} read back", case)]
+            for a, b in zip(s0, s1):
+                bad = [k for k in a if a[k] != b[k]]
+                if bad:
+                    viols.append((f"C18:bundled-field:{name}:{'+'.join(bad)}", f"{name}: {a['reactants']}->{a['products']}: { {k: (a[k], b[k]) for k in bad} }", case))
+                    break
+            w2 = tmp / "w2.naunet"
+            n1.write(w2, "naunet")
+            if w1.read_bytes() != w2.read_bytes():
+                viols.append((f"C18:bundled-second-cycle:{name}", f"{name}: second cycle not byte-identical", case))
+            if [s.name for s in net.species] != [s.name for s in n1.species]:
+                viols.append((f"C18:bundled-species:{name}", f"{name}: species list differs after the round trip", case))
+        return len(s0), viols
+    finally:
+        shutil.rmtree(tmp, ignore_errors=True)
+
+
+def bundled(tier):
+    from ..core.runner import REPO
+    import importlib
+
+    t = REPO / "tests" / "data"
+    out = [(str(t / "minimal.kida"), "kida", {}), (str(t / "minimal.umist"), "umist", {}), (str(t / "minimal.krome"), "krome", {}), (str(t / "minimal.ucl"), "uclchem", {}),
+           (str(t / "minimal.leeds"), "leeds", {}), (str(t / "duplicate.kida"), "kida", {}), (str(t / "multiduplicate.kida"), "kida", {})]
+    pm = importlib.import_module("naunet.examples.primordial")
+    out.append((str(REPO / "naunet" / "examples" / "primordial" / pm.files), "krome", {"elements": list(pm.elements), "pseudo_elements": list(pm.pseudo_elements)}))
+    if tier != "quick":
+        out.append((str(t / "rate12.umist"), "umist", {}))
+        out.append((str(t / "rate12_HO.leeds"), "leeds", {"species_kwargs": {"surface_prefix": "G"}}))
+        dm = importlib.import_module("naunet.examples.deuterium")
+        out.append((str(REPO / "naunet" / "examples" / "deuterium" / dm.files), "krome", {"elements": list(dm.elements), "pseudo_elements": list(dm.pseudo_elements)}))
+    return [o for o in out if Path(o[0]).exists() and Path(o[0]).stat().st_size > 0]
+
+
 # ---- export + re-render -------------------------------------------------------------------
 def export_cases(tier):
     out = []
@@ -240,6 +302,10 @@ def run(ctx):
     for fmt, n, viols in ctx.pmap(run_roundtrip, work):
         nfiles += n
         ctx.absorb(viols)
+    nb = 0
+    for n, viols in ctx.pmap(run_bundled, bundled(ctx.tier)):
+        nb += n
+        ctx.absorb(viols)
     ex = export_cases(ctx.tier)
     outcomes = {}
     with mp.get_context("fork").Pool(ctx.workers, maxtasksperchild=1) as pool:
@@ -259,6 +325,7 @@ def run(ctx):
         "rule": "write/read/write/read cycles over the line space of C07 (5 formats, 200 reactions per file); export + re-render for every gas-phase (format,type) of C05, a KROME rate, and every (entry path, dust model, process) of C11, one reaction per exported project",
         "samples": ex[:3],
         "roundtrip_files": nfiles,
+        "bundled_file_reactions_round_tripped": nb,
         "export_projects": len(ex),
         "export_outcomes": dict(Counter(outcomes.values())),
         "export_outcome_by_case": dict(sorted(outcomes.items())),
@@ -267,7 +334,10 @@ def run(ctx):
 
 
 def replay(ctx, case):
-    if "kind" in case:
+    if "bundled" in case:
+        n, v = run_bundled((case["bundled"], case["fmt"], case["kw"]))
+        ctx.absorb(v)
+    elif "kind" in case:
         label, outcome, v = run_export(case)
         ctx.absorb(v)
     else:
